@@ -592,6 +592,62 @@ theorem dictGet_dictAdd_q {α} (d : List (Key × α)) (c : String) (v : α) (rn 
   · rw [dictGet_append]
     cases dictGet d (.q rn c') <;> simp
 
+theorem dictGet_dictAdd_ne {α} (d : List (Key × α)) (k : Key) (v : α) (k' : Key) (h : k ≠ k') :
+    dictGet (dictAdd d k v) k' = dictGet d k' := by
+  unfold dictAdd
+  split
+  · rfl
+  · rw [dictGet_append]
+    cases dictGet d k' <;> simp [h]
+
+/-- qualified entries after one step of the first loop of `_merge_fields` -/
+theorem mergeStep_get_q (name : String) (off : Nat) (ix : List (Key × Nat)) (p : Field × Nat) (rn c : String) :
+    dictGet (mergeStep name off ix p) (.q rn c)
+      = if Key.q name p.1.name = Key.q rn c then some (off + p.2) else dictGet ix (.q rn c) := by
+  unfold mergeStep
+  simp only
+  split
+  · rw [dictGet_dictAdd_ne _ _ _ _ (by simp), dictGet_dictSet, dictGet_dictAdd_ne _ _ _ _ (by simp)]
+  · rw [dictGet_dictSet, dictGet_dictAdd_ne _ _ _ _ (by simp)]
+
+/-- unqualified entries after one step -/
+theorem mergeStep_get_u (name : String) (off : Nat) (ix : List (Key × Nat)) (p : Field × Nat) (c : String) :
+    dictGet (mergeStep name off ix p) (.u c) = dictGet (dictAdd ix (.u p.1.name) (off + p.2)) (.u c) := by
+  unfold mergeStep
+  simp only
+  split
+  · rw [dictGet_dictAdd_ne _ _ _ _ (by simp), dictGet_dictSet]; simp
+  · rw [dictGet_dictSet]; simp
+
+theorem dictGet_dictAdd_eq {α} (d : List (Key × α)) (k : Key) (v : α) (k' : Key) :
+    dictGet (dictAdd d k v) k' = match dictGet d k' with
+      | some x => some x
+      | none => if k = k' then some v else none := by
+  unfold dictAdd
+  split
+  · rename_i h
+    cases hd : dictGet d k' with
+    | some x => rfl
+    | none =>
+      simp only
+      split
+      · rename_i e; subst e; rw [hd] at h; simp at h
+      · rfl
+  · exact dictGet_append d k v k'
+
+/-- key entries after one step -/
+theorem mergeStep_get_k (name : String) (off : Nat) (ix : List (Key × Nat)) (p : Field × Nat) (c : String) :
+    dictGet (mergeStep name off ix p) (.k c)
+      = if p.1.isKey = true then dictGet (dictAdd ix (.k p.1.name) (off + p.2)) (.k c) else dictGet ix (.k c) := by
+  have h1 : dictGet (dictSet (dictAdd ix (.u p.1.name) (off + p.2)) (.q name p.1.name) (off + p.2)) (.k c)
+      = dictGet ix (.k c) := by
+    rw [dictGet_dictSet]; simp only [reduceCtorEq, if_false]; rw [dictGet_dictAdd_ne _ _ _ _ (by simp)]
+  unfold mergeStep
+  simp only
+  split
+  · rw [dictGet_dictAdd_eq, dictGet_dictAdd_eq, h1]
+  · exact h1
+
 /-- after merging the fields `all` (names `all.map name`) of the first relation `name`, a
 qualified key of the index is `name.c` and points at a position holding a field named `c` -/
 def QInv (name : String) (names : List String) (m : Nat) (ix : List (Key × Nat)) : Prop :=
@@ -623,16 +679,15 @@ theorem mergeFold_inv (name : String) (all : List Field) :
     simp only [List.zipIdx_cons, List.foldl_cons]
     apply mergeFold_inv name all fs (n + 1) _ hdrop'
     intro rn c i hi
-    simp only [mergeStep, Nat.zero_add] at hi
-    rw [dictGet_dictSet] at hi
+    rw [mergeStep_get_q] at hi
+    simp only [Nat.zero_add] at hi
     split at hi
     · rename_i heq
       cases heq
       cases hi
       refine ⟨rfl, by omega, ?_⟩
       simp [hf]
-    · rw [dictGet_dictAdd_q] at hi
-      obtain ⟨h1, h2, h3⟩ := hinv rn c i hi
+    · obtain ⟨h1, h2, h3⟩ := hinv rn c i hi
       exact ⟨h1, by omega, h3⟩
 
 
@@ -958,22 +1013,22 @@ theorem select_single_relation_aux (rx : List Char → List Char → Bool) (db :
 /-! ## each join step as a relational comprehension -/
 
 /-- do the joined row `l` and the stored row `r` of `rel` carry equal cast values in every column
-named in `on`? (left: the selection's column of that unqualified name; right: `rel`'s column) -/
+named in `on`? (left: the selection's first KEY column of that name, `_key_index`; right: `rel`'s column) -/
 def agreeOn (sel : Sel) (rel : Rel) (on : List String) (l r : List Cell) : Bool :=
-  on.all (fun k => match dictGet sel.index (.u k), rel.fieldIdx? k with
+  on.all (fun k => match dictGet sel.index (.k k), rel.fieldIdx? k with
     | some i, some j => decide ((l.getD i noCell).val = (r.getD j noCell).val)
     | _, _ => false)
 
 theorem keyOf_agree (sel : Sel) (rel : Rel) (l r : List Cell) :
-    (on : List String) → (∀ k ∈ on, (dictGet sel.index (.u k)).isSome) → (∀ k ∈ on, (rel.fieldIdx? k).isSome) →
-    decide (keyOf (on.filterMap rel.fieldIdx?) r = keyOf (on.filterMap (fun n => dictGet sel.index (.u n))) l)
+    (on : List String) → (∀ k ∈ on, (dictGet sel.index (.k k)).isSome) → (∀ k ∈ on, (rel.fieldIdx? k).isSome) →
+    decide (keyOf (on.filterMap rel.fieldIdx?) r = keyOf (on.filterMap (fun n => dictGet sel.index (.k n))) l)
       = agreeOn sel rel on l r
   | [], _, _ => by simp [agreeOn, keyOf, pick]
   | k :: on, hL, hR => by
     have ih := keyOf_agree sel rel l r on (fun x hx => hL x (by simp [hx])) (fun x hx => hR x (by simp [hx]))
     have h1 := hL k (by simp)
     have h2 := hR k (by simp)
-    cases hi : dictGet sel.index (.u k) with
+    cases hi : dictGet sel.index (.k k) with
     | none => simp [hi] at h1
     | some i =>
       cases hj : rel.fieldIdx? k with
@@ -1036,7 +1091,7 @@ theorem sharedKeys_right (sel : Sel) (rel : Rel) (cols : List String) (indices :
   rfl
 
 theorem sharedKeys_left (sel : Sel) (fields : List Field) :
-    ∀ k ∈ sharedKeys sel fields, (dictGet sel.index (.u k)).isSome := by
+    ∀ k ∈ sharedKeys sel fields, (dictGet sel.index (.k k)).isSome := by
   intro k hk
   simp only [sharedKeys, List.mem_map, List.mem_filter, Bool.and_eq_true] at hk
   obtain ⟨f, ⟨_, _, h⟩, hname⟩ := hk
@@ -1064,7 +1119,7 @@ theorem joinStep_eq_nestedStep (db : DB) (sel : Sel) (j : String × List String)
           · simp only [hon]
             have key : ∀ l r, decide (keyOf (List.filterMap rel.fieldIdx?
                   (sharedKeys sel (indices.map (fun i => rel.fields.getD i ⟨"", .string, false⟩)))) r
-                = keyOf (List.filterMap (fun n => dictGet sel.index (.u n))
+                = keyOf (List.filterMap (fun n => dictGet sel.index (.k n))
                   (sharedKeys sel (indices.map (fun i => rel.fields.getD i ⟨"", .string, false⟩)))) l)
                 = agreeOn sel rel (sharedKeys sel (indices.map (fun i => rel.fields.getD i ⟨"", .string, false⟩))) l r :=
               fun l r => keyOf_agree sel rel l r _
@@ -1250,11 +1305,40 @@ theorem dictGet_dictAdd {α} (d : List (Key × α)) (k : Key) (v : α) (k' : Key
       · rename_i e; cases h; exact Or.inr ⟨e.symm, rfl⟩
       · cases h
 
-/-- where an entry of the index after the first loop of `_merge_fields` comes from -/
+/-- where an entry of the index after the first loop of `_merge_fields` comes from: an old entry, or
+the `i`-th new field `f` under its unqualified name, its qualified name, or — if `f` is a key — its
+key name (`_key_index`) -/
 def Origin1 (ix0 : List (Key × Nat)) (name : String) (offset : Nat) (all : List Field) (m : Nat)
     (key : Key) (p : Nat) : Prop :=
   dictGet ix0 key = some p ∨
-  ∃ i f, i < m ∧ all[i]? = some f ∧ p = offset + i ∧ (key = .u f.name ∨ key = .q name f.name)
+  ∃ i f, i < m ∧ all[i]? = some f ∧ p = offset + i ∧
+    (key = .u f.name ∨ key = .q name f.name ∨ (key = .k f.name ∧ f.isKey = true))
+
+theorem mergeStep_origin (name : String) (offset : Nat) (ix : List (Key × Nat)) (f : Field) (n : Nat)
+    (key : Key) (p : Nat) (h : dictGet (mergeStep name offset ix (f, n)) key = some p) :
+    dictGet ix key = some p ∨
+    (p = offset + n ∧ (key = .u f.name ∨ key = .q name f.name ∨ (key = .k f.name ∧ f.isKey = true))) := by
+  cases key with
+  | u c =>
+    rw [mergeStep_get_u] at h
+    rcases dictGet_dictAdd _ _ _ _ _ h with e | ⟨e1, e2⟩
+    · exact Or.inl e
+    · exact Or.inr ⟨e2, Or.inl e1⟩
+  | q rn c =>
+    rw [mergeStep_get_q] at h
+    split at h
+    · rename_i e
+      cases h
+      exact Or.inr ⟨rfl, Or.inr (Or.inl e.symm)⟩
+    · exact Or.inl h
+  | k c =>
+    rw [mergeStep_get_k] at h
+    split at h
+    · rename_i hk
+      rcases dictGet_dictAdd _ _ _ _ _ h with e | ⟨e1, e2⟩
+      · exact Or.inl e
+      · exact Or.inr ⟨e2, Or.inr (Or.inr ⟨e1, hk⟩)⟩
+    · exact Or.inl h
 
 theorem mergeFold_origin (ix0 : List (Key × Nat)) (name : String) (offset : Nat) (all : List Field) :
     (fs : List Field) → (n : Nat) → (ix : List (Key × Nat)) → all.drop n = fs →
@@ -1280,30 +1364,24 @@ theorem mergeFold_origin (ix0 : List (Key × Nat)) (name : String) (offset : Nat
     simp only [List.zipIdx_cons, List.foldl_cons]
     apply mergeFold_origin ix0 name offset all fs (n + 1) _ hdrop'
     intro key p h
-    simp only [mergeStep] at h
-    rw [dictGet_dictSet] at h
-    split at h
-    · rename_i e
-      cases h
-      exact Or.inr ⟨n, f, by omega, hf, rfl, Or.inr e.symm⟩
-    · rcases dictGet_dictAdd _ _ _ _ _ h with e | ⟨e1, e2⟩
-      · rcases hinv key p e with e' | ⟨i, g, hi, hg, hp, hk⟩
-        · exact Or.inl e'
-        · exact Or.inr ⟨i, g, by omega, hg, hp, hk⟩
-      · exact Or.inr ⟨n, f, by omega, hf, e2, Or.inl e1⟩
+    rcases mergeStep_origin name offset ix f n key p h with e | ⟨hp, hk⟩
+    · rcases hinv key p e with e' | ⟨i, g, hi, hg, hp, hk⟩
+      · exact Or.inl e'
+      · exact Or.inr ⟨i, g, by omega, hg, hp, hk⟩
+    · exact Or.inr ⟨n, f, by omega, hf, hp, hk⟩
 
 /-- where an entry of the index after `_merge_fields` comes from: an old entry, a new column
-(`offset + i`), or a shared key aliased to the selection's column of that name -/
+(`offset + i`), or a shared key aliased to the selection's KEY column of that name (`_key_index`) -/
 def Origin (ix0 : List (Key × Nat)) (name : String) (offset : Nat) (all : List Field) (on : List String)
     (key : Key) (p : Nat) : Prop :=
   Origin1 ix0 name offset all all.length key p ∨
-  ∃ k ∈ on, key = .q name k ∧ Origin1 ix0 name offset all all.length (.u k) p
+  ∃ k ∈ on, key = .q name k ∧ Origin1 ix0 name offset all all.length (.k k) p
 
 theorem onFold_origin (ix0 : List (Key × Nat)) (name : String) (offset : Nat) (all : List Field)
     (on0 : List String) :
     (on : List String) → (∀ k ∈ on, k ∈ on0) → (ix : List (Key × Nat)) →
     (∀ key p, dictGet ix key = some p → Origin ix0 name offset all on0 key p) →
-    ∀ key p, dictGet (on.foldl (fun ix nm => match dictGet ix (.u nm) with
+    ∀ key p, dictGet (on.foldl (fun ix nm => match dictGet ix (.k nm) with
         | some i => dictSet ix (.q name nm) i
         | none => ix) ix) key = some p → Origin ix0 name offset all on0 key p
   | [], _, ix, hinv => by simpa using hinv
@@ -1317,7 +1395,7 @@ theorem onFold_origin (ix0 : List (Key × Nat)) (name : String) (offset : Nat) (
       split at h
       · rename_i e
         cases h
-        rcases hinv (.u k) p hi with o | ⟨k', _, e', _⟩
+        rcases hinv (.k k) p hi with o | ⟨k', _, e', _⟩
         · exact Or.inr ⟨k, hsub k (by simp), e.symm, o⟩
         · cases e'
       · exact hinv key p h
@@ -1379,7 +1457,7 @@ theorem merge_inv (db : DB) (sel : Sel) (L : List (List Cell))
     (hrV : ∀ (i : Nat) (f : Field), fields'[i]? = some f → ∃ j, rV[i]? = some j ∧ rel.fieldIdx? f.name = some j)
     (data' : List (List Cell))
     (hdata : ∀ row' ∈ data', ∃ l ∈ L, ∃ r ∈ rel.rows, row' = l ++ pick rV r ∧
-      ∀ k ∈ on, ∀ p, dictGet sel.index (.u k) = some p →
+      ∀ k ∈ on, ∀ p, dictGet sel.index (.k k) = some p →
         ∃ j, rel.fieldIdx? k = some j ∧ (l.getD p noCell).val = (r.getD j noCell).val) :
     SelInv db (mergeFields { sel with data := data' } name on fields') := by
   have horigin := mergeFields_origin { sel with data := data' } name on fields'
@@ -1407,9 +1485,10 @@ theorem merge_inv (db : DB) (sel : Sel) (L : List (List Cell))
     rcases horigin (.q n c) p h with o | ⟨k, _, e, _⟩
     · rcases o with e | ⟨i, f, _, _, _, hk⟩
       · exact List.mem_append_left _ (hjoined n c p e)
-      · rcases hk with hk | hk
+      · rcases hk with hk | hk | ⟨hk, _⟩
         · cases hk
         · cases hk; simp
+        · cases hk
     · cases e; simp
   · intro row' hrow'
     simp only [mergeFields] at hrow' ⊢
@@ -1442,20 +1521,22 @@ theorem merge_inv (db : DB) (sel : Sel) (L : List (List Cell))
         refine ⟨rel', h1, by simpa [hn] using h2, ?_⟩
         simp only [hn, if_false]
         rw [old _ eold, h3]
-      · rcases hkey with hkey | hkey
+      · rcases hkey with hkey | hkey | ⟨hkey, _⟩
         · cases hkey
         · cases hkey
           exact ⟨rel, hrel, by simpa using hr, by simpa using newcol i f hi hf hp⟩
+        · cases hkey
     · cases ekey
       refine ⟨rel, hrel, by simpa using hr, ?_⟩
       simp only [if_true]
       rcases o with eold | ⟨i, f, hi, hf, hp, hkey⟩
       · obtain ⟨j, hj, hv⟩ := hagree c hk p eold
         rw [old _ eold, hv, cellOf_eq rel r c j hj]
-      · rcases hkey with hkey | hkey
+      · rcases hkey with hkey | hkey | ⟨hkey, _⟩
+        · cases hkey
+        · cases hkey
         · cases hkey
           exact newcol i f hi hf hp
-        · cases hkey
 
 
 
@@ -1493,7 +1574,7 @@ theorem field_of_indices (rel : Rel) (cols : List String) (indices : List Nat)
 
 theorem agreeOn_spec (sel : Sel) (rel : Rel) (on : List String) (l r : List Cell)
     (h : agreeOn sel rel on l r = true) :
-    ∀ k ∈ on, ∀ p, dictGet sel.index (.u k) = some p →
+    ∀ k ∈ on, ∀ p, dictGet sel.index (.k k) = some p →
       ∃ j, rel.fieldIdx? k = some j ∧ (l.getD p noCell).val = (r.getD j noCell).val := by
   intro k hk p hp
   simp only [agreeOn, List.all_eq_true] at h
@@ -1865,20 +1946,20 @@ theorem allKeys_covers (db : DB) (qs : List QName) : ∀ (all : List String) (jm
 def keysOfJoins (db : DB) (js : List (String × List String)) : List String :=
   js.flatMap (fun p => keyNamesOf db p.1)
 
-/-- every step after `jk` has been collected shares a column name with the keys joined so far -/
+/-- every step after `jk` has been collected has a KEY column named like one of the keys joined so far -/
 def validFrom (db : DB) (jk : List String) : List (String × List String) → Bool
   | [] => true
-  | p :: ps => intersects jk p.2 && validFrom db (jk ++ keyNamesOf db p.1) ps
+  | p :: ps => intersects jk (keyNamesOf db p.1) && validFrom db (jk ++ keyNamesOf db p.1) ps
 
-/-- a join order is valid if every join but the first has a column named like a key of a
-relation joined before it -/
+/-- a join order is valid if every join but the first has a KEY column named like a key of a
+relation joined before it (the order loop of `_plan_joins` after commit e207678) -/
 def validPlan (db : DB) : List (String × List String) → Bool
   | [] => true
   | p :: ps => validFrom db (keyNamesOf db p.1) ps
 
 theorem validFrom_append (db : DB) : ∀ (qs : List (String × List String)) (jk : List String)
     (p : String × List String),
-    validFrom db jk (qs ++ [p]) = (validFrom db jk qs && intersects (jk ++ keysOfJoins db qs) p.2) := by
+    validFrom db jk (qs ++ [p]) = (validFrom db jk qs && intersects (jk ++ keysOfJoins db qs) (keyNamesOf db p.1)) := by
   intro qs
   induction qs with
   | nil => intro jk p; simp [validFrom, keysOfJoins]
@@ -1889,7 +1970,7 @@ theorem validFrom_append (db : DB) : ∀ (qs : List (String × List String)) (jk
 
 theorem validPlan_snoc (db : DB) (joins : List (String × List String)) (p : String × List String)
     (hv : validPlan db joins = true)
-    (hp : (joins.isEmpty || intersects (keysOfJoins db joins) p.2) = true) :
+    (hp : (joins.isEmpty || intersects (keysOfJoins db joins) (keyNamesOf db p.1)) = true) :
     validPlan db (joins ++ [p]) = true := by
   cases joins with
   | nil => simp [validPlan, validFrom]
@@ -3555,42 +3636,44 @@ theorem lexLine_no_fuel : ∀ (n : Nat) (s : List Char), s.length < n → lexLin
 
 /-! ## shared keys: all relations that have `k` as a key see the same value -/
 
-theorem mergeStep_u_pres (name : String) (off : Nat) (ix : List (Key × Nat)) (p : Field × Nat) (c : String) (q : Nat)
-    (h : dictGet ix (.u c) = some q) : dictGet (mergeStep name off ix p) (.u c) = some q := by
-  simp only [mergeStep]
-  rw [dictGet_dictSet]
-  simp only [reduceCtorEq, if_false]
-  unfold dictAdd
-  split
-  · exact h
-  · rw [dictGet_append, h]
+theorem dictAdd_pres {α} (d : List (Key × α)) (k : Key) (v : α) (k' : Key) (q : α)
+    (h : dictGet d k' = some q) : dictGet (dictAdd d k v) k' = some q := by
+  rw [dictGet_dictAdd_eq, h]
+
+theorem dictAdd_new {α} (d : List (Key × α)) (k : Key) (v : α) : ∃ q, dictGet (dictAdd d k v) k = some q := by
+  rw [dictGet_dictAdd_eq]
+  cases dictGet d k with
+  | some x => exact ⟨x, rfl⟩
+  | none => exact ⟨v, by simp⟩
+
+/-- unqualified and key entries keep their position in one step of the first loop -/
+theorem mergeStep_pres (name : String) (off : Nat) (ix : List (Key × Nat)) (p : Field × Nat) (key : Key)
+    (hk : ∀ rn c, key ≠ .q rn c) (q : Nat)
+    (h : dictGet ix key = some q) : dictGet (mergeStep name off ix p) key = some q := by
+  cases key with
+  | u c => rw [mergeStep_get_u]; exact dictAdd_pres _ _ _ _ _ h
+  | q rn c => exact absurd rfl (hk rn c)
+  | k c =>
+    rw [mergeStep_get_k]
+    split
+    · exact dictAdd_pres _ _ _ _ _ h
+    · exact h
 
 theorem mergeStep_u_new (name : String) (off : Nat) (ix : List (Key × Nat)) (p : Field × Nat) :
     ∃ q, dictGet (mergeStep name off ix p) (.u p.1.name) = some q := by
-  simp only [mergeStep]
-  rw [dictGet_dictSet]
-  simp only [reduceCtorEq, if_false]
-  unfold dictAdd
-  split
-  · rename_i h
-    cases hd : dictGet ix (.u p.1.name) with
-    | none => simp [hd] at h
-    | some q => exact ⟨q, rfl⟩
-  · rename_i h
-    have hn : dictGet ix (.u p.1.name) = none := by
-      cases hd : dictGet ix (.u p.1.name) with
-      | none => rfl
-      | some q => simp [hd] at h
-    rw [dictGet_append, hn]
-    simp
+  rw [mergeStep_get_u]; exact dictAdd_new _ _ _
 
-theorem mergeFold_u_pres (name : String) (off : Nat) (c : String) (q : Nat) :
-    ∀ (ps : List (Field × Nat)) (ix : List (Key × Nat)), dictGet ix (.u c) = some q →
-    dictGet (ps.foldl (mergeStep name off) ix) (.u c) = some q := by
+theorem mergeStep_k_new (name : String) (off : Nat) (ix : List (Key × Nat)) (p : Field × Nat)
+    (hp : p.1.isKey = true) : ∃ q, dictGet (mergeStep name off ix p) (.k p.1.name) = some q := by
+  rw [mergeStep_get_k, if_pos hp]; exact dictAdd_new _ _ _
+
+theorem mergeFold_pres (name : String) (off : Nat) (key : Key) (hk : ∀ rn c, key ≠ .q rn c) (q : Nat) :
+    ∀ (ps : List (Field × Nat)) (ix : List (Key × Nat)), dictGet ix key = some q →
+    dictGet (ps.foldl (mergeStep name off) ix) key = some q := by
   intro ps
   induction ps with
   | nil => intro ix h; exact h
-  | cons p ps ih => intro ix h; exact ih _ (mergeStep_u_pres name off ix p c q h)
+  | cons p ps ih => intro ix h; exact ih _ (mergeStep_pres name off ix p key hk q h)
 
 theorem mergeFold_u_new (name : String) (off : Nat) :
     ∀ (ps : List (Field × Nat)) (ix : List (Key × Nat)) (p : Field × Nat), p ∈ ps →
@@ -3603,14 +3686,28 @@ theorem mergeFold_u_new (name : String) (off : Nat) :
     rcases List.mem_cons.mp hp with e | e
     · subst e
       obtain ⟨q, hq⟩ := mergeStep_u_new name off ix p
-      exact ⟨q, mergeFold_u_pres name off _ q ps _ hq⟩
+      exact ⟨q, mergeFold_pres name off _ (by intro _ _ h; cases h) q ps _ hq⟩
     · exact ih _ p e
 
-theorem onFold_u_pres (name : String) (c : String) (q : Nat) :
-    ∀ (on : List String) (ix : List (Key × Nat)), dictGet ix (.u c) = some q →
-    dictGet (on.foldl (fun ix nm => match dictGet ix (.u nm) with
+theorem mergeFold_k_new (name : String) (off : Nat) :
+    ∀ (ps : List (Field × Nat)) (ix : List (Key × Nat)) (p : Field × Nat), p ∈ ps → p.1.isKey = true →
+    ∃ q, dictGet (ps.foldl (mergeStep name off) ix) (.k p.1.name) = some q := by
+  intro ps
+  induction ps with
+  | nil => intro ix p hp; simp at hp
+  | cons a ps ih =>
+    intro ix p hp hkey
+    rcases List.mem_cons.mp hp with e | e
+    · subst e
+      obtain ⟨q, hq⟩ := mergeStep_k_new name off ix p hkey
+      exact ⟨q, mergeFold_pres name off _ (by intro _ _ h; cases h) q ps _ hq⟩
+    · exact ih _ p e hkey
+
+theorem onFold_pres (name : String) (key : Key) (hk : ∀ rn c, key ≠ .q rn c) (q : Nat) :
+    ∀ (on : List String) (ix : List (Key × Nat)), dictGet ix key = some q →
+    dictGet (on.foldl (fun ix nm => match dictGet ix (.k nm) with
         | some i => dictSet ix (.q name nm) i
-        | none => ix) ix) (.u c) = some q := by
+        | none => ix) ix) key = some q := by
   intro on
   induction on with
   | nil => intro ix h; exact h
@@ -3619,15 +3716,27 @@ theorem onFold_u_pres (name : String) (c : String) (q : Nat) :
     simp only [List.foldl_cons]
     apply ih
     split
-    · rw [dictGet_dictSet]; simp only [reduceCtorEq, if_false]; exact h
+    · rw [dictGet_dictSet, if_neg (fun e => hk _ _ e.symm)]; exact h
     · exact h
+
+/-- unqualified and key entries that exist before `_merge_fields` keep their position -/
+theorem mergeFields_pres (sel : Sel) (name : String) (on : List String) (fields : List Field) (key : Key)
+    (hk : ∀ rn c, key ≠ .q rn c) (q : Nat) (h : dictGet sel.index key = some q) :
+    dictGet (mergeFields sel name on fields).index key = some q := by
+  simp only [mergeFields]
+  exact onFold_pres name key hk q on _ (mergeFold_pres name _ key hk q _ _ h)
 
 /-- unqualified entries that exist before `_merge_fields` keep their position -/
 theorem mergeFields_u_pres (sel : Sel) (name : String) (on : List String) (fields : List Field) (c : String)
     (q : Nat) (h : dictGet sel.index (.u c) = some q) :
-    dictGet (mergeFields sel name on fields).index (.u c) = some q := by
-  simp only [mergeFields]
-  exact onFold_u_pres name c q on _ (mergeFold_u_pres name _ c q _ _ h)
+    dictGet (mergeFields sel name on fields).index (.u c) = some q :=
+  mergeFields_pres sel name on fields _ (by intro _ _ h; cases h) q h
+
+/-- key entries (`_key_index`) that exist before `_merge_fields` keep their position -/
+theorem mergeFields_k_pres (sel : Sel) (name : String) (on : List String) (fields : List Field) (c : String)
+    (q : Nat) (h : dictGet sel.index (.k c) = some q) :
+    dictGet (mergeFields sel name on fields).index (.k c) = some q :=
+  mergeFields_pres sel name on fields _ (by intro _ _ h; cases h) q h
 
 /-- every new column has an unqualified entry afterwards -/
 theorem mergeFields_u_new (sel : Sel) (name : String) (on : List String) (fields : List Field) (f : Field)
@@ -3638,7 +3747,19 @@ theorem mergeFields_u_new (sel : Sel) (name : String) (on : List String) (fields
     apply List.mem_iff_getElem?.mpr
     exact ⟨i, by simp [List.getElem?_zipIdx, hi]⟩
   obtain ⟨q, hq⟩ := mergeFold_u_new name sel.fields.length (fields.zipIdx 0) sel.index (f, 0 + i) hp
-  exact ⟨q, onFold_u_pres name f.name q on _ hq⟩
+  exact ⟨q, onFold_pres name _ (by intro _ _ h; cases h) q on _ hq⟩
+
+/-- every new KEY column has a key entry afterwards -/
+theorem mergeFields_k_new (sel : Sel) (name : String) (on : List String) (fields : List Field) (f : Field)
+    (hf : f ∈ fields) (hkey : f.isKey = true) :
+    ∃ q, dictGet (mergeFields sel name on fields).index (.k f.name) = some q := by
+  simp only [mergeFields]
+  obtain ⟨i, hi⟩ := List.mem_iff_getElem?.mp hf
+  have hp : (f, 0 + i) ∈ fields.zipIdx 0 := by
+    apply List.mem_iff_getElem?.mpr
+    exact ⟨i, by simp [List.getElem?_zipIdx, hi]⟩
+  obtain ⟨q, hq⟩ := mergeFold_k_new name sel.fields.length (fields.zipIdx 0) sel.index (f, 0 + i) hp hkey
+  exact ⟨q, onFold_pres name _ (by intro _ _ h; cases h) q on _ hq⟩
 
 
 
@@ -3647,42 +3768,49 @@ def KeyCol (db : DB) (n k : String) : Prop :=
   ∃ rel, db.rel? n = some rel ∧ ∀ f ∈ rel.fields, f.name = k → f.isKey = true
 
 /-- in every joined row, the column a relation's KEY `k` is looked up at carries the same cast value
-as the selection's column `k` (the first joined column of that name) -/
+as the selection's key column `k` (`_key_index`: the first joined KEY column of that name) -/
 structure KeyInv (db : DB) (sel : Sel) : Prop where
-  uex : ∀ n k p, dictGet sel.index (.q n k) = some p → ∃ q, dictGet sel.index (.u k) = some q
-  keq : ∀ n k p q, dictGet sel.index (.q n k) = some p → dictGet sel.index (.u k) = some q → KeyCol db n k →
+  uex : ∀ n k p, dictGet sel.index (.q n k) = some p → KeyCol db n k → ∃ q, dictGet sel.index (.k k) = some q
+  keq : ∀ n k p q, dictGet sel.index (.q n k) = some p → dictGet sel.index (.k k) = some q → KeyCol db n k →
     ∀ row ∈ sel.data, (row.getD p noCell).val = (row.getD q noCell).val
 
 theorem keyInv_merge (db : DB) (sel : Sel) (L : List (List Cell))
     (hbound : ∀ key p, dictGet sel.index key = some p → p < sel.fields.length)
     (hL1 : ∀ l ∈ L, l.length = sel.fields.length)
-    (huex : ∀ n k p, dictGet sel.index (.q n k) = some p → ∃ q, dictGet sel.index (.u k) = some q)
-    (hkeq : ∀ n k p q, dictGet sel.index (.q n k) = some p → dictGet sel.index (.u k) = some q → KeyCol db n k →
+    (huex : ∀ n k p, dictGet sel.index (.q n k) = some p → KeyCol db n k → ∃ q, dictGet sel.index (.k k) = some q)
+    (hkeq : ∀ n k p q, dictGet sel.index (.q n k) = some p → dictGet sel.index (.k k) = some q → KeyCol db n k →
       ∀ l ∈ L, (l.getD p noCell).val = (l.getD q noCell).val)
     (name : String) (rel : Rel) (hrel : db.rel? name = some rel)
     (fields' : List Field) (rV : List Nat) (on : List String)
     (hrV : ∀ (i : Nat) (f : Field), fields'[i]? = some f → ∃ j, rV[i]? = some j ∧ rel.fieldIdx? f.name = some j)
     (hsub : ∀ f ∈ fields', f ∈ rel.fields)
-    (hkeyfresh : ∀ f ∈ fields', f.isKey = true → dictGet sel.index (.u f.name) = none)
+    (hkeyfresh : ∀ f ∈ fields', f.isKey = true → dictGet sel.index (.k f.name) = none)
     (hnoton : ∀ f ∈ fields', f.name ∉ on)
-    (hon : ∀ k ∈ on, ∃ p, dictGet sel.index (.u k) = some p)
+    (hon : ∀ k ∈ on, ∃ p, dictGet sel.index (.k k) = some p)
     (data' : List (List Cell))
     (hdata : ∀ row' ∈ data', ∃ l ∈ L, ∃ r : List Cell, row' = l ++ pick rV r) :
     KeyInv db (mergeFields { sel with data := data' } name on fields') := by
   have horigin := mergeFields_origin { sel with data := data' } name on fields'
-  have hpres := mergeFields_u_pres { sel with data := data' } name on fields'
-  have hnew := mergeFields_u_new { sel with data := data' } name on fields'
+  have hpres := mergeFields_k_pres { sel with data := data' } name on fields'
+  have hnew := mergeFields_k_new { sel with data := data' } name on fields'
   simp only at horigin hpres hnew
+  have keyOfCol : ∀ f ∈ fields', KeyCol db name f.name → f.isKey = true := by
+    intro f hf hkc
+    obtain ⟨rel', hr', hall⟩ := hkc
+    rw [hrel] at hr'; cases hr'
+    exact hall f (hsub f hf) rfl
   constructor
-  · intro n k p h
+  · intro n k p h hkc
     rcases horigin (.q n k) p h with o | ⟨k', hk', e, _⟩
     · rcases o with eold | ⟨i, f, _, hf, _, hkey⟩
-      · obtain ⟨q, hq⟩ := huex n k p eold
+      · obtain ⟨q, hq⟩ := huex n k p eold hkc
         exact ⟨q, hpres k q hq⟩
-      · rcases hkey with hkey | hkey
+      · rcases hkey with hkey | hkey | ⟨hkey, _⟩
         · cases hkey
         · cases hkey
-          exact hnew f (List.mem_iff_getElem?.mpr ⟨i, hf⟩)
+          have hfm : f ∈ fields' := List.mem_iff_getElem?.mpr ⟨i, hf⟩
+          exact hnew f hfm (keyOfCol f hfm hkc)
+        · cases hkey
     · cases e
       obtain ⟨q, hq⟩ := hon k hk'
       exact ⟨q, hpres k q hq⟩
@@ -3697,43 +3825,44 @@ theorem keyInv_merge (db : DB) (sel : Sel) (L : List (List Cell))
       intro i f hf
       obtain ⟨j, hj1, hj2⟩ := hrV i f hf
       rw [e, ← hlen, getD_append_right', pick_getD rV r i j hj1, cellOf_eq rel r f.name j hj2]
-    -- where the unqualified entry comes from
-    have hqo : Origin1 sel.index name sel.fields.length fields' fields'.length (.u k) q := by
-      rcases horigin (.u k) q hq with o | ⟨_, _, e', _⟩
+    -- where the key entry comes from
+    have hqo : Origin1 sel.index name sel.fields.length fields' fields'.length (.k k) q := by
+      rcases horigin (.k k) q hq with o | ⟨_, _, e', _⟩
       · exact o
       · cases e'
     rcases horigin (.q n k) p hp with o | ⟨k', hk', ek, o⟩
     · rcases o with eold | ⟨i, f, _, hf, hpi, hkey⟩
-      · -- an old qualified entry: the unqualified one is old too
-        obtain ⟨q0, hq0⟩ := huex n k p eold
+      · -- an old qualified entry: the key entry is old too
+        obtain ⟨q0, hq0⟩ := huex n k p eold hkc
         have : q = q0 := by have := hpres k q0 hq0; rw [hq] at this; exact Option.some.inj this
         subst this
         rw [old _ p eold, old _ q hq0]
         exact hkeq n k p q eold hq0 hkc l hl
-      · rcases hkey with hkey | hkey
+      · rcases hkey with hkey | hkey | ⟨hkey, _⟩
         · cases hkey
         · cases hkey
-          -- a new key column: the unqualified entry is new as well and names the same column
+          -- a new key column: the key entry is new as well and names the same column
           have hfm : f ∈ fields' := List.mem_iff_getElem?.mpr ⟨i, hf⟩
-          obtain ⟨rel', hr', hall⟩ := hkc
-          rw [hrel] at hr'; cases hr'
-          have hfk : f.isKey = true := hall f (hsub f hfm) rfl
+          have hfk : f.isKey = true := keyOfCol f hfm hkc
           have hfresh := hkeyfresh f hfm hfk
           rcases hqo with eold | ⟨j, g, _, hg, hqj, hgk⟩
           · rw [hfresh] at eold; cases eold
-          · rcases hgk with hgk | hgk
+          · rcases hgk with hgk | hgk | ⟨hgk, _⟩
+            · cases hgk
+            · cases hgk
             · have hname : f.name = g.name := by injection hgk
               rw [hpi, hqj, newcell i f hf, newcell j g hg, hname]
-            · cases hgk
+        · cases hkey
     · cases ek
-      -- a shared key: aliased to the selection's column of that name
+      -- a shared key: aliased to the selection's key column of that name
       rcases o with eold | ⟨i, f, _, hf, _, hkey⟩
       · have : q = p := by have := hpres k p eold; rw [hq] at this; exact Option.some.inj this
         rw [this]
-      · rcases hkey with hkey | hkey
+      · rcases hkey with hkey | hkey | ⟨hkey, _⟩
+        · cases hkey
+        · cases hkey
         · cases hkey
           exact absurd hk' (hnoton f (List.mem_iff_getElem?.mpr ⟨i, hf⟩))
-        · cases hkey
 
 
 
@@ -3757,11 +3886,18 @@ theorem mergeFold_isSome (name : String) (off : Nat) (key : Key) :
   intro ps
   induction ps with
   | nil => intro ix h; exact h
-  | cons p ps ih => intro ix h; exact ih _ (dictSet_isSome _ _ _ _ (dictAdd_isSome _ _ _ _ h))
+  | cons p ps ih =>
+    intro ix h
+    apply ih
+    unfold mergeStep
+    simp only
+    split
+    · exact dictAdd_isSome _ _ _ _ (dictSet_isSome _ _ _ _ (dictAdd_isSome _ _ _ _ h))
+    · exact dictSet_isSome _ _ _ _ (dictAdd_isSome _ _ _ _ h)
 
 theorem onFold_isSome (name : String) (key : Key) :
     ∀ (on : List String) (ix : List (Key × Nat)), (dictGet ix key).isSome = true →
-    (dictGet (on.foldl (fun ix nm => match dictGet ix (.u nm) with
+    (dictGet (on.foldl (fun ix nm => match dictGet ix (.k nm) with
         | some i => dictSet ix (.q name nm) i
         | none => ix) ix) key).isSome = true := by
   intro on
@@ -3793,8 +3929,7 @@ theorem mergeFold_q_new (name : String) (off : Nat) :
     · subst e
       simp only [List.foldl_cons]
       apply mergeFold_isSome
-      simp only [mergeStep]
-      rw [dictGet_dictSet]; simp
+      rw [mergeStep_get_q]; simp
     · exact ih _ p e
 
 /-- every new column gets its qualified entry -/
@@ -3809,8 +3944,8 @@ theorem mergeFields_q_new (sel : Sel) (name : String) (on : List String) (fields
 
 /-- every shared key gets its qualified entry -/
 theorem onFold_q_new (name : String) : ∀ (on : List String) (ix : List (Key × Nat)) (k : String), k ∈ on →
-    (dictGet ix (.u k)).isSome = true →
-    (dictGet (on.foldl (fun ix nm => match dictGet ix (.u nm) with
+    (dictGet ix (.k k)).isSome = true →
+    (dictGet (on.foldl (fun ix nm => match dictGet ix (.k nm) with
         | some i => dictSet ix (.q name nm) i
         | none => ix) ix) (.q name k)).isSome = true := by
   intro on
@@ -3822,7 +3957,7 @@ theorem onFold_q_new (name : String) : ∀ (on : List String) (ix : List (Key ×
     rcases List.mem_cons.mp hk with e | e
     · subst e
       apply onFold_isSome
-      cases hd : dictGet ix (.u k) with
+      cases hd : dictGet ix (.k k) with
       | none => simp [hd] at hu
       | some i => rw [dictGet_dictSet]; simp
     · apply ih _ k e
@@ -3831,7 +3966,7 @@ theorem onFold_q_new (name : String) : ∀ (on : List String) (ix : List (Key ×
       · exact hu
 
 theorem mergeFields_on_new (sel : Sel) (name : String) (on : List String) (fields : List Field) (k : String)
-    (hk : k ∈ on) (hu : (dictGet sel.index (.u k)).isSome = true) :
+    (hk : k ∈ on) (hu : (dictGet sel.index (.k k)).isSome = true) :
     (dictGet (mergeFields sel name on fields).index (.q name k)).isSome = true := by
   simp only [mergeFields]
   exact onFold_q_new name on _ k hk (mergeFold_isSome name _ _ _ _ hu)
@@ -3932,7 +4067,7 @@ theorem nestedStep_key (db : DB) (sel sel' : Sel) (j : String × List String) (h
                 j.1 rel hrel _ _ _ hal.2 (fun f hf => hsubF f (List.mem_filter.mp hf).1) ?_ ?_ ?_ _ ?_
               · intro f hf hfk
                 have hfil := (List.mem_filter.mp hf)
-                cases hd : dictGet sel.index (.u f.name) with
+                cases hd : dictGet sel.index (.k f.name) with
                 | none => rfl
                 | some q =>
                   have : f.name ∈ sharedKeys sel (indices.map (fun i => rel.fields.getD i ⟨"", .string, false⟩)) := by
@@ -3946,7 +4081,7 @@ theorem nestedStep_key (db : DB) (sel sel' : Sel) (j : String × List String) (h
                 simpa using hno
               · intro k hk'
                 have := sharedKeys_left sel _ k hk'
-                cases hd : dictGet sel.index (.u k) with
+                cases hd : dictGet sel.index (.k k) with
                 | none => simp [hd] at this
                 | some p => exact ⟨p, rfl⟩
               · intro row' hrow'
@@ -4020,7 +4155,7 @@ theorem select_sound_strong_aux (rx : List Char → List Char → Bool) (db : DB
         cases hp2 : dictGet sel.index (.q j2.1 k) with
         | none => have := hex j2 hj2 k hk2; simp [hp2] at this
         | some p2 =>
-          obtain ⟨qq, hq⟩ := hkey.uex j1.1 k p1 hp1
+          obtain ⟨qq, hq⟩ := hkey.uex j1.1 k p1 hp1 kc1
           have e1 := hkey.keq j1.1 k p1 qq hp1 hq kc1 row hrow
           have e2 := hkey.keq j2.1 k p2 qq hp2 hq kc2 row hrow
           have v1 := hw.val (j1.1, k) p1 hp1
